@@ -20,6 +20,9 @@
 //	  worker and a gated planner (handler calls park until the script releases them with the
 //	  order in which the results are produced); after each command the harness waits for the
 //	  consequences the specification determines and compares replies and the projection.
+//	  Behaviours generated with Admission = "parked" (SimRace.cfg) additionally hold a feed INSIDE
+//	  sendExecutor.submit: they need GsEnv.SwapSession (overlay build only) to put a session
+//	  object whose ID() can block in front of the real one, and run with two send workers.
 //	Method B (random): free-running feeders (one per session: bursts of SENDs, pings, closes),
 //	  two pushers, a closer, a drainer, random plans/failures/latency in the handler; every event
 //	  is logged under one lock and TLC validates the log against specs/GatewaySession/Trace.tla.
@@ -90,6 +93,13 @@ type GsEnv struct {
 	Inner func(d *GsDriver, batch bool) gatewaytypes.Handler
 	// Traces / TraceOps scale the random driver.
 	Traces, TraceOps int
+	// SwapSession (optional; nil in the ext build) replaces the session object the Server keeps
+	// for a connection by wrap(original).  The Server calls Session.ID() inside
+	// sendExecutor.submit (shard lookup, when there is more than one shard), so a wrapper whose
+	// ID() blocks or yields holds a feed between the admission fence and the enqueue.
+	SwapSession func(srv *core.Server, listener string, connID uint64, wrap func(session.Session) session.Session) bool
+	// RaceBehs are Sim.tla behaviours generated with Admission = "parked" (replayed only with SwapSession).
+	RaceBehs []GsBehaviour
 }
 
 // ---- items, plans -------------------------------------------------------------------------
@@ -136,6 +146,8 @@ type gsLog struct {
 	hends  int
 	drainD bool
 	nev    int
+	// lateSeen: a handler call entered after DrainDone was already reported for this trace
+	lateSeen bool
 }
 
 func newGsLog(rec GsRecorder, rep GsReport, names []string) *gsLog {
@@ -202,7 +214,21 @@ func (l *gsLog) RecvDone(s string, n int, ok bool) {
 	})
 }
 func (l *gsLog) HStart(its []gsItem) {
-	l.emit(map[string]any{"a": "HStart", "items": gsItemsJSON(its)}, func() { l.ndisp += len(its); l.active++ })
+	late := false
+	l.emit(map[string]any{"a": "HStart", "items": gsItemsJSON(its)}, func() {
+		l.ndisp += len(its)
+		l.active++
+		late = l.drainD && !l.lateSeen
+		if late {
+			l.lateSeen = true
+		}
+	})
+	if late {
+		// "after send draining starts, no new SEND is dispatched, while SENDs admitted earlier
+		// still complete": DrainSends had returned nil (every admitted SEND completed) and the
+		// handler is entered with a SEND nevertheless (TLC reports the same on the trace).
+		l.rep.Violate(gsProp, "state", fmt.Sprintf("the handler was entered with %v after DrainSends had returned nil", its), map[string]any{"items": gsItemsJSON(its)})
+	}
 }
 func (l *gsLog) HEnd(its []gsItem, failed bool) {
 	l.emit(map[string]any{"a": "HEnd", "items": gsItemsJSON(its), "err": failed}, func() { l.active--; l.hends++ })
@@ -361,19 +387,46 @@ func (c *gsConn) Write(data []byte) error {
 	return c.inner.Write(data)
 }
 
-func (c *gsConn) Close() error {
+// markClosed records the Close event (once) and makes the connection refuse writes.
+func (c *gsConn) markClosed() {
 	c.mu.Lock()
 	if !c.closed {
 		c.closed = true
 		c.log.emit(map[string]any{"a": "Close", "s": c.name}, func() { c.log.count(c.name).closed = true })
 	}
 	c.mu.Unlock()
+}
+
+// Close is called by the Server (refused SEND, failed handler call, stop, or at the end of the
+// close the peer started).
+func (c *gsConn) Close() error {
+	c.markClosed()
 	return c.inner.Close()
 }
 
 // ---- line protocol --------------------------------------------------------------------------
 
-// gsProto: inbound "S<clientSeq>\n" = SEND, "G\n" = PING; outbound "A<clientSeq>\n" = SENDACK,
+// gsChannels is the channel table: every SEND is addressed to one of these.  The table is in
+// DESCENDING (ChannelType, ChannelID) order, so SENDs whose channel index increases are in
+// reverse sort order of their channels.  C28 does not depend on the channel: SENDACKs follow
+// the order of the SENDs of the session whatever they are addressed to.
+var gsChannels = []struct {
+	typ uint8
+	id  string
+}{{2, "gs-d"}, {2, "gs-a"}, {1, "gs-z"}, {1, "gs-c"}}
+
+// gsChanOf is the default channel index (1-based) of the n-th SEND of a session.
+func gsChanOf(n int) int { return (n-1)%len(gsChannels) + 1 }
+
+// gsSendLine is the inbound line of a SEND with client sequence n to channel index ch (1-based).
+func gsSendLine(n, ch int) string {
+	if ch < 1 || ch > len(gsChannels) {
+		ch = gsChanOf(n)
+	}
+	return "S" + strconv.Itoa(n) + "." + strconv.Itoa(ch) + "\n"
+}
+
+// gsProto: inbound "S<clientSeq>.<channel index>\n" = SEND, "G\n" = PING; outbound "A<clientSeq>\n" = SENDACK,
 // "R<issuer>:<n>\n" = RECV (a pushed frame), "P\n" = PONG.
 type gsProto struct{}
 
@@ -390,11 +443,19 @@ func (gsProto) Decode(_ session.Session, in []byte) ([]frame.Frame, int, error) 
 		consumed += i + 1
 		switch {
 		case strings.HasPrefix(line, "S"):
-			n, err := strconv.ParseUint(line[1:], 10, 64)
+			seq, chs, _ := strings.Cut(line[1:], ".")
+			n, err := strconv.ParseUint(seq, 10, 64)
 			if err != nil {
 				return nil, 0, err
 			}
-			out = append(out, &frame.SendPacket{ClientSeq: n, ClientMsgNo: "m" + line[1:], ChannelID: "gs-channel", ChannelType: 2, Payload: []byte("payload-" + line[1:])})
+			ci := gsChanOf(int(n))
+			if chs != "" {
+				if ci, err = strconv.Atoi(chs); err != nil || ci < 1 || ci > len(gsChannels) {
+					return nil, 0, fmt.Errorf("gsproto: bad channel in %q", line)
+				}
+			}
+			ch := gsChannels[ci-1]
+			out = append(out, &frame.SendPacket{ClientSeq: n, ClientMsgNo: "m" + seq, ChannelID: ch.id, ChannelType: ch.typ, Payload: []byte("payload-" + seq)})
 		case line == "G":
 			out = append(out, &frame.PingPacket{})
 		default:
@@ -415,6 +476,92 @@ func (gsProto) Encode(_ session.Session, f frame.Frame, _ session.OutboundMeta) 
 }
 func (gsProto) OnOpen(session.Session) error  { return nil }
 func (gsProto) OnClose(session.Session) error { return nil }
+
+// ---- session hook (GsEnv.SwapSession) ---------------------------------------------------------------
+
+// gsGoID is the id of the calling goroutine (first line of its stack: "goroutine N [running]:").
+func gsGoID() uint64 {
+	var buf [64]byte
+	f := strings.Fields(string(buf[:runtime.Stack(buf[:], false)]))
+	if len(f) < 2 {
+		return 0
+	}
+	id, _ := strconv.ParseUint(f[1], 10, 64)
+	return id
+}
+
+type gsGate struct {
+	parked  chan struct{} // closed when the armed ID() call has parked
+	release chan struct{} // closing it lets that call return
+}
+
+// gsHookSession sits in front of the session object the Server keeps for a connection.  Only
+// ID() is special.  Gated replay: the next ID() call made by the goroutine that armed the gate
+// parks until the gate is released (the Server calls ID() on the feeding goroutine exactly once
+// per SEND, inside sendExecutor.submit; calls from other goroutines -- handlers, close -- pass).
+// Random driver: every ID() call perturbs the schedule (never a synchronisation).
+type gsHookSession struct {
+	session.Session
+	mu     sync.Mutex
+	armed  uint64
+	gate   *gsGate
+	jitter func()
+}
+
+func (h *gsHookSession) arm(goid uint64, g *gsGate) {
+	h.mu.Lock()
+	h.armed, h.gate = goid, g
+	h.mu.Unlock()
+}
+
+func (h *gsHookSession) ID() uint64 {
+	h.mu.Lock()
+	var g *gsGate
+	if h.armed != 0 && h.armed == gsGoID() {
+		g, h.armed, h.gate = h.gate, 0, nil
+	}
+	j := h.jitter
+	h.mu.Unlock()
+	if g != nil {
+		close(g.parked)
+		<-g.release
+	} else if j != nil {
+		j()
+	}
+	return h.Session.ID()
+}
+
+// optional capabilities of the real session object stay reachable
+func (h *gsHookSession) SealOutboundAndWrite(f frame.Frame, opts ...session.WriteOption) error {
+	if s, ok := h.Session.(session.OutboundSealer); ok {
+		return s.SealOutboundAndWrite(f, opts...)
+	}
+	return session.ErrOutboundSealUnsupported
+}
+func (h *gsHookSession) OutboundSealed() bool {
+	s, ok := h.Session.(session.OutboundSealState)
+	return ok && s.OutboundSealed()
+}
+
+// hookSessions puts a gsHookSession in front of every session; false if the build has no hook.
+func (d *GsDriver) hookSessions(jitter func()) bool {
+	if d.env.SwapSession == nil {
+		return false
+	}
+	for i, name := range d.names {
+		h := &gsHookSession{jitter: jitter}
+		ok := d.env.SwapSession(d.srv, gsListener, uint64(i+1), func(inner session.Session) session.Session {
+			h.Session = inner
+			return h
+		})
+		if !ok || h.Session == nil {
+			d.rep.Infra("cannot hook the session of connection %s", name)
+			return false
+		}
+		d.hooks[name] = h
+	}
+	return true
+}
 
 // ---- the driver -----------------------------------------------------------------------------
 
@@ -441,6 +588,7 @@ type GsDriver struct {
 	prng   *rand.Rand // planner's generator (guarded by mu)
 	parkCh chan *gsParked
 	autoCh chan struct{} // closed: the gated planner releases everything at once (clean-up)
+	hooks  map[string]*gsHookSession
 }
 
 var errGsPlanned = errors.New("gs: planned handler failure")
@@ -568,8 +716,10 @@ func (h *gsShell) OnSessionOpen(ctx gatewaytypes.Context) error {
 	h.d.register(ctx)
 	return h.inner.OnSessionOpen(ctx)
 }
-func (h *gsShell) OnSessionClose(ctx gatewaytypes.Context) error      { return h.inner.OnSessionClose(ctx) }
-func (h *gsShell) OnSessionError(ctx gatewaytypes.Context, err error) { h.inner.OnSessionError(ctx, err) }
+func (h *gsShell) OnSessionClose(ctx gatewaytypes.Context) error { return h.inner.OnSessionClose(ctx) }
+func (h *gsShell) OnSessionError(ctx gatewaytypes.Context, err error) {
+	h.inner.OnSessionError(ctx, err)
+}
 func (h *gsShell) OnFrame(ctx gatewaytypes.Context, f frame.Frame) error {
 	send, ok := f.(*frame.SendPacket)
 	if !ok {
@@ -662,7 +812,7 @@ func gsNewDriver(env *GsEnv, rec GsRecorder, rep GsReport, cfg gsCfg, seed int64
 		names[i] = "s" + strconv.Itoa(i+1)
 	}
 	d := &GsDriver{env: env, cfg: cfg, rep: rep, names: names, sess: map[string]session.Session{}, byID: map[uint64]string{},
-		prng: rand.New(rand.NewSource(seed)), parkCh: make(chan *gsParked, 64), autoCh: make(chan struct{})}
+		prng: rand.New(rand.NewSource(seed)), parkCh: make(chan *gsParked, 64), autoCh: make(chan struct{}), hooks: map[string]*gsHookSession{}}
 	d.log = newGsLog(rec, rep, names)
 	d.fac = newGsFactory(d.log)
 	inner := env.Inner(d, cfg.Batch)
@@ -725,8 +875,23 @@ func (d *GsDriver) feed(name string, data string) {
 	_ = d.fac.inner.MustListener(gsListener).EmitData(id, []byte(data))
 }
 
+// peerClose: the peer closes the connection.  The Close event is recorded BEFORE the Server hears
+// of it, and from that moment the connection refuses writes (a socket whose peer is gone).  The
+// Server's own close of a session is a sequence (mark the state closing, from then on inbound
+// data is dropped and Session.WriteFrame fails; unregister; protocol OnClose; only then the
+// connection's Close): were the event recorded at its end, a feed could run, be dropped and
+// return inside that sequence while the log still shows the connection open, and the harness
+// would count SENDs as accepted that the Server never saw ("unless the session closes first").
+// Closes the Server starts itself need no such care: they run on the feeding goroutine of that
+// session (refused SEND, failed PING) or on a send worker that still owns admitted SENDs, so
+// neither the return of DrainSends nor the final Quiesce -- the only points at which C28 asks
+// whether an accepted SEND of an OPEN session has its SENDACK -- can fall between their start
+// and the event.
 func (d *GsDriver) peerClose(name string) {
 	id, _ := strconv.ParseUint(strings.TrimPrefix(name, "s"), 10, 64)
+	if c := d.fac.conn(id); c != nil {
+		c.markClosed()
+	}
 	d.fac.inner.MustListener(gsListener).EmitClose(id, nil)
 }
 
@@ -766,8 +931,22 @@ func (d *GsDriver) finish(drainStarted bool, waiter <-chan error) {
 	} else if err := d.drainWait(); err != nil {
 		d.rep.Infra("final DrainSends: %v", err)
 	}
-	// HEnd is recorded inside the handler, i.e. before core finishes the call; Quiesce is
-	// only an observation point, so wait for the log rather than for the server.
+	d.quiesceAndStop()
+}
+
+// quiesceAndStop: the drain wait has returned.  HEnd is recorded inside the handler, i.e. before
+// core finishes the call; Quiesce is only an observation point, so wait for the log rather than
+// for the server.
+func (d *GsDriver) quiesceAndStop() {
+	// Every accepted SEND was enqueued, so it has been dispatched by now; an implementation
+	// whose drain returned early is given a moment to show the late dispatch (no verdict here).
+	d.log.waitFor(3*time.Second, func() bool {
+		acc := 0
+		for _, c := range d.log.sess {
+			acc += c.nacc
+		}
+		return d.log.ndisp >= acc
+	})
 	if !d.log.waitFor(gsWaitLong, func() bool { return d.log.active == 0 }) {
 		d.rep.Infra("handler calls still active after the drain returned")
 	}
@@ -797,7 +976,7 @@ func gsRandomCfg(r *rand.Rand, batchOnly bool) gsCfg {
 func gsRandomTrace(env *GsEnv, rec GsRecorder, rep GsReport, r *rand.Rand, hasFrameOnly bool) {
 	cfg := gsRandomCfg(r, !hasFrameOnly)
 	rec.Begin(map[string]any{"cfg": map[string]any{"cap": cfg.Cap, "scap": cfg.Cap, "bmax": cfg.BatchMax, "mode": "shared"},
-		"workers": cfg.Workers, "batch": cfg.Batch, "gated": false}, nil)
+		"workers": cfg.Workers, "batch": cfg.Batch, "gated": false, "adm": "atomic"}, nil)
 	d, err := gsNewDriver(env, rec, rep, cfg, r.Int63())
 	if err != nil {
 		rep.Infra("cannot start server: %v", err)
@@ -805,14 +984,39 @@ func gsRandomTrace(env *GsEnv, rec GsRecorder, rep GsReport, r *rand.Rand, hasFr
 	}
 	d.open()
 	ops := env.TraceOps
-	var wg sync.WaitGroup
+	var wg, feeders sync.WaitGroup
+	// With the session hook and more than one shard the Server calls our ID() inside submit:
+	// every such call yields/sleeps a little (a feed lingers between the admission fence and the
+	// enqueue), and one of them, chosen at random, wakes the drainer and lingers longer.
+	drainNow := make(chan struct{})
+	hooked := false
+	if env.SwapSession != nil && cfg.Workers >= 2 && r.Intn(4) != 0 {
+		var hmu sync.Mutex
+		hr := rand.New(rand.NewSource(r.Int63()))
+		calls, trigger := 0, 1+hr.Intn(2+ops*cfg.Sessions/2)
+		hooked = d.hookSessions(func() {
+			hmu.Lock()
+			calls++
+			fire := calls == trigger
+			k := hr.Intn(8)
+			hmu.Unlock()
+			if fire {
+				close(drainNow)
+				time.Sleep(2 * time.Millisecond)
+				return
+			}
+			gsJitter(k)
+		})
+	}
 	// feeders: one per session (a real transport serialises the reads of one connection)
 	for _, name := range d.names {
 		name := name
 		fr := rand.New(rand.NewSource(r.Int63()))
 		wg.Add(1)
+		feeders.Add(1)
 		go func() {
 			defer wg.Done()
+			defer feeders.Done()
 			conn := d.connOf(name)
 			next, pings := 1, 0
 			for op := 0; op < ops; op++ {
@@ -824,7 +1028,11 @@ func gsRandomTrace(env *GsEnv, rec GsRecorder, rep GsReport, r *rand.Rand, hasFr
 					b := []int{1, 1, 1, 2, 3, 4}[fr.Intn(6)]
 					var sb strings.Builder
 					for i := 0; i < b; i++ {
-						sb.WriteString("S" + strconv.Itoa(next+i) + "\n")
+						ch := gsChanOf(next + i) // consecutive SENDs: channels in reverse sort order
+						if fr.Intn(3) == 0 {
+							ch = 1 + fr.Intn(len(gsChannels))
+						}
+						sb.WriteString(gsSendLine(next+i, ch))
 					}
 					last := next + b - 1
 					d.log.Recv(name, last)
@@ -882,18 +1090,28 @@ func gsRandomTrace(env *GsEnv, rec GsRecorder, rep GsReport, r *rand.Rand, hasFr
 			d.peerClose(d.names[cr.Intn(len(d.names))])
 		}()
 	}
-	// drainer
+	// drainer: DrainSends at a random point, concurrently with the feeders' submissions (always
+	// when the feeds linger inside submit, more often when there are several workers)
 	drainStarted := false
 	var waiter chan error
-	if r.Intn(2) == 0 {
+	if hooked || r.Intn(3) < min(cfg.Workers, 2) {
 		drainStarted = true
 		waiter = make(chan error, 1)
 		dr := rand.New(rand.NewSource(r.Int63()))
+		feedersDone := make(chan struct{})
+		go func() { feeders.Wait(); close(feedersDone) }()
 		wg.Add(1)
 		go func() {
 			defer wg.Done()
-			for i := 0; i < dr.Intn(3*ops); i++ {
-				gsJitter(dr.Intn(8))
+			if hooked {
+				select {
+				case <-drainNow:
+				case <-feedersDone:
+				}
+			} else {
+				for i := 0; i < dr.Intn(3*ops); i++ {
+					gsJitter(dr.Intn(8))
+				}
 			}
 			d.drainStart()
 			waiter <- d.drainWait()
@@ -910,19 +1128,34 @@ func gsRandomTrace(env *GsEnv, rec GsRecorder, rep GsReport, r *rand.Rand, hasFr
 // business: C28 does not constrain them.  Where the implementation leaves the script there, the
 // replay is ABANDONED (counted as "diverged", never a violation); its events are still in the
 // trace and TLC judges them with the C28 formulas.  A VIOLATION is reported directly only for
-//   (a) a released handler call whose batch and plan are the specification's and whose SENDACKs,
-//       session by session, are not the ones the specification determines (order, exactly one);
-//   (b) DrainSends returning while a handler call is still parked.
+//
+//	(a) a released handler call whose batch and plan are the specification's and whose SENDACKs,
+//	    session by session, are not the ones the specification determines (order, exactly one);
+//	(b) DrainSends returning while a handler call is still parked;
+//	(c) (in the log, replayed or random) the handler entered after DrainSends had returned nil.
+//
+// DrainSends returning nil while a FEED is held inside submit is not judged by itself (an
+// implementation may look the shard up before the admission fence and refuse that SEND later):
+// the replay is abandoned, the feed is let go, and (c) / TLC judge what the SEND does then.
+// gsInflight is a feed held inside sendExecutor.submit (SendBegin .. SendEnd).
+type gsInflight struct {
+	n    int
+	gate *gsGate
+	done chan struct{} // closed when the feed has returned
+}
+
 type gsReplay struct {
-	d        *GsDriver
-	rep      GsReport
-	beh      GsBehaviour
-	parked   *gsParked
-	waiter   chan error
-	drained  bool
-	bad      bool // a violation was reported
-	diverged bool
-	timeout  bool
+	d                 *GsDriver
+	rep               GsReport
+	beh               GsBehaviour
+	parked            *gsParked
+	inflight          map[string]*gsInflight
+	parkTried, parkOK int // feeds the script holds inside submit / that did stop at the parking point
+	waiter            chan error
+	drained           bool
+	bad               bool // a violation was reported
+	diverged          bool
+	timeout           bool
 }
 
 func gsMap(m map[string]any, k string) map[string]any { x, _ := m[k].(map[string]any); return x }
@@ -1099,21 +1332,55 @@ func (rp *gsReplay) settle(step int, st map[string]any) {
 	rp.expectParked(step, gsItemsFrom(st["parked"]))
 }
 
+// endFeed lets the feed held inside submit continue and records its return.
+func (rp *gsReplay) endFeed(step int, s, want string) {
+	fl := rp.inflight[s]
+	if fl == nil {
+		return
+	}
+	delete(rp.inflight, s)
+	close(fl.gate.release)
+	select {
+	case <-fl.done:
+	case <-time.After(gsWaitLong):
+		rp.diverge(step, true, fmt.Sprintf("the feed of %s did not return after it was let go", s))
+		return
+	}
+	ok := !rp.d.connOf(s).isClosed()
+	rp.d.log.RecvDone(s, fl.n, ok)
+	if want != "" && (want == "ok") != ok {
+		rp.diverge(step, false, fmt.Sprintf("SendEnd(%s,%d): specification %v, session open after the feed: %v", s, fl.n, want, ok))
+	}
+}
+
 func gsReplayOne(env *GsEnv, rec GsRecorder, rep GsReport, beh GsBehaviour, seed int64) *gsReplay {
 	if len(beh.Steps) == 0 {
 		return nil
 	}
 	c := gsMap(beh.Steps[0].Ev, "cfg")
 	first, _ := beh.Steps[0].St.(map[string]any)
+	adm, _ := beh.Steps[0].Ev["adm"].(string)
 	cfg := gsCfg{Workers: 1, Cap: gsInt(c["cap"]), BatchMax: gsInt(c["bmax"]), Sessions: len(gsMap(first, "sess")), Batch: true, Gated: true}
-	rec.Begin(map[string]any{"cfg": c, "workers": 1, "batch": true, "gated": true}, nil)
+	if adm == "parked" {
+		// feeds are held inside submit through Session.ID(), which the Server only calls when
+		// there are several shards: two workers (the script has one session, hence one shard in use)
+		if env.SwapSession == nil {
+			return nil
+		}
+		cfg.Workers = 2
+	}
+	rec.Begin(map[string]any{"cfg": c, "workers": cfg.Workers, "batch": true, "gated": true, "adm": adm}, nil)
 	d, err := gsNewDriver(env, rec, rep, cfg, seed)
 	if err != nil {
 		rep.Infra("cannot start server: %v", err)
 		return nil
 	}
 	d.open()
-	rp := &gsReplay{d: d, rep: rep, beh: beh}
+	rp := &gsReplay{d: d, rep: rep, beh: beh, inflight: map[string]*gsInflight{}}
+	if adm == "parked" && !d.hookSessions(nil) {
+		d.finish(false, nil)
+		return nil
+	}
 	steps := 0
 	for i, stp := range beh.Steps[1:] {
 		if rp.stop() {
@@ -1130,12 +1397,73 @@ func gsReplayOne(env *GsEnv, rec GsRecorder, rep GsReport, beh GsBehaviour, seed
 		case "Send":
 			n := gsInt(ev["n"])
 			d.log.Recv(s, n)
-			d.feed(s, "S"+strconv.Itoa(n)+"\n")
+			d.feed(s, gsSendLine(n, gsInt(ev["ch"])))
 			ok := !d.connOf(s).isClosed()
 			d.log.RecvDone(s, n, ok)
 			if want := res["r"] == "ok"; want != ok {
 				rp.diverge(step, false, fmt.Sprintf("Send(%s,%d): specification %v, session open after the feed: %v", s, n, res["r"], ok))
 			}
+		case "SendBegin":
+			n := gsInt(ev["n"])
+			hook := d.hooks[s]
+			if hook == nil {
+				rep.Infra("SendBegin without a session hook")
+				rp.diverged = true
+				break
+			}
+			fl := &gsInflight{n: n, gate: &gsGate{parked: make(chan struct{}), release: make(chan struct{})}, done: make(chan struct{})}
+			line := gsSendLine(n, gsInt(ev["ch"]))
+			d.log.Recv(s, n)
+			go func() {
+				hook.arm(gsGoID(), fl.gate)
+				d.feed(s, line)
+				hook.arm(0, nil)
+				close(fl.done)
+			}()
+			wantParked, _ := res["parked"].(bool)
+			if wantParked {
+				rp.parkTried++
+			}
+			select {
+			case <-fl.gate.parked:
+				rp.inflight[s] = fl
+				if wantParked {
+					rp.parkOK++
+				} else { // refused by the specification before the parking point: let it run on
+					rp.endFeed(step, s, "closed")
+				}
+			case <-fl.done:
+				ok := !d.connOf(s).isClosed()
+				d.log.RecvDone(s, n, ok)
+				if wantParked {
+					rp.diverge(step, false, fmt.Sprintf("SendBegin(%s,%d): the feed returned (session open: %v) without passing through Session.ID() inside submit", s, n, ok))
+				} else if ok {
+					rp.diverge(step, false, fmt.Sprintf("SendBegin(%s,%d): specification refuses the SEND (draining), the session is still open", s, n))
+				}
+			case <-time.After(gsWaitLong):
+				rp.inflight[s] = fl
+				rp.diverge(step, true, fmt.Sprintf("SendBegin(%s,%d): the feed neither parked nor returned", s, n))
+			}
+		case "SendEnd":
+			if rp.inflight[s] == nil {
+				rp.diverge(step, false, "no feed is held inside submit; the specification has one")
+				break
+			}
+			// If a drain is waiting, give it a moment to return although this SEND is still
+			// inside submit (schedule shaping only: the specification says it must not).
+			if rp.waiter != nil && !rp.drained {
+				select {
+				case err := <-rp.waiter:
+					rp.drained = true
+					rp.diverge(step, false, fmt.Sprintf("DrainSends returned (%v) while the feed of %s is inside submit; the specification counts that SEND as admitted", err, s))
+				case <-time.After(50 * time.Millisecond):
+				}
+			}
+			if rp.stop() {
+				break
+			}
+			r, _ := res["r"].(string)
+			rp.endFeed(step, s, r)
 		case "Release":
 			if rp.parked == nil {
 				rp.diverge(step, false, "no handler call is parked; the specification has a batch inside the handler")
@@ -1211,6 +1539,9 @@ func gsReplayOne(env *GsEnv, rec GsRecorder, rep GsReport, beh GsBehaviour, seed
 	}
 	// clean-up: let everything parked run to completion, then the common epilogue
 	d.releaseAuto()
+	for _, name := range d.names {
+		rp.endFeed(len(beh.Steps), name, "")
+	}
 	var w <-chan error
 	if rp.waiter != nil && !rp.drained {
 		w = rp.waiter
@@ -1218,12 +1549,7 @@ func gsReplayOne(env *GsEnv, rec GsRecorder, rep GsReport, beh GsBehaviour, seed
 	started := rp.waiter != nil
 	if started && rp.drained {
 		// the waiter already returned and DrainDone is in the log
-		if !d.log.waitFor(gsWaitLong, func() bool { return d.log.active == 0 }) {
-			rep.Infra("handler calls still active after the drain returned")
-		}
-		d.log.Quiesce()
-		_ = d.srv.Stop()
-		d.log.finish()
+		d.quiesceAndStop()
 	} else {
 		d.finish(started, w)
 	}
@@ -1245,7 +1571,9 @@ func GsRun(env *GsEnv, rec GsRecorder, rep GsReport) {
 		hasFrameOnly = env.Inner(probe, false) != nil
 	}
 	diverged, timeouts, replayed := 0, 0, 0
-	for i, b := range env.Behs {
+	race, parkTried, parkOK := 0, 0, 0
+	behs := append(append([]GsBehaviour(nil), env.Behs...), env.RaceBehs...)
+	for i, b := range behs {
 		if rep.Violations() >= 2 || timeouts >= 2 { // a broken build makes every further replay wait for its time-outs
 			break
 		}
@@ -1254,6 +1582,11 @@ func GsRun(env *GsEnv, rec GsRecorder, rep GsReport) {
 			continue
 		}
 		replayed++
+		if i >= len(env.Behs) {
+			race++
+			parkTried += rp.parkTried
+			parkOK += rp.parkOK
+		}
 		if rp.diverged {
 			diverged++
 		}
@@ -1268,6 +1601,11 @@ func GsRun(env *GsEnv, rec GsRecorder, rep GsReport) {
 	// longer fit, the replay stage has become vacuous: say so (the traces still carry the verdict).
 	if replayed >= 4 && diverged*2 > replayed {
 		rep.Infra("%d of %d replayed behaviours left the script (admission/batching differs from specs/GatewaySession/Sim.tla); last: see extra last_divergence", diverged, replayed)
+	}
+	rep.Extra("race_behaviours_replayed", race)
+	rep.Extra("feeds_held_inside_submit", parkOK)
+	if parkTried > 0 && parkOK == 0 {
+		rep.Infra("none of the %d feeds the scripts hold inside submit reached the parking point (Session.ID() is no longer called on the feeding goroutine inside submit): those schedules are vacuous", parkTried)
 	}
 	for i := 0; i < env.Traces; i++ {
 		gsRandomTrace(env, rec, rep, env.Rand, hasFrameOnly)
